@@ -60,7 +60,8 @@ def _worker(args):
         return dict(cfg=cfg, error="".join(traceback.format_exception(type(e), e, e.__traceback__))[-3000:],
                     paths=0, queries=0, solver_time_s=0, obligations=0, discharged=0,
                     symbolic_obligations=0, inconclusive=[], n_inconclusive=0, cex=[], known_hits={},
-                    outcomes={}, reached=0, truncated=False, samples=[], wall_s=time.time() - t0, aborted=0)
+                    outcomes={}, reached=0, truncated=False, samples=[], wall_s=time.time() - t0, aborted=0,
+                    cross=dict(checked=0, agree=0, unknown=0, disagree=0))
 
 
 def replay_record(path, timeout=300):
@@ -200,6 +201,7 @@ def main(argv=None):
             outside_claim=getattr(m, "OUTSIDE", []),
             stubs_used=m.STUBS, reachability_witnesses=sum(1 for r in results if r["reached"] > 0),
             replays=n_replays, known_findings_confirmed=sorted(known_confirmed),
+            cvc5_cross_check={k: sum(r.get("cross", {}).get(k, 0) for r in results) for k in ("checked", "agree", "unknown", "disagree")},
             outcomes={k: sum(r["outcomes"].get(k, 0) for r in results) for r in results for k in r["outcomes"]},
             truncated_configs=[r["cfg"] for r in results if r["truncated"]][:10],
             exhaustive=False,
@@ -232,6 +234,8 @@ def main(argv=None):
         print(f"INCONCLUSIVE {it['cfg']}: {it['items'][:2]} (n={it['n']})")
     for fid, k in known_confirmed.items():
         print(f"KNOWN-FINDING: property={prop} {findings[fid]['what']} [{fid}; {k['count']} path(s); replay={k['replay']}]")
+    if any(r.get("cross", {}).get("disagree") for r in results):
+        harness_errors.append("z3 and cvc5 disagree on a discharged obligation (see inconclusive items)")
     if harness_errors:
         for e in harness_errors[:10]:
             print("HARNESS-ERROR", e)
